@@ -103,7 +103,7 @@ Definition lvalidate_kind (f : leaf) (x : pyval) : res pyval :=
   end.
 
 (* ... then `if self.validator: value = self.validator(cfg, value)` (never reached for None) *)
-Definition lvalidate (f : leaf) (x : pyval) : res pyval :=
+Definition lvalidate_data (f : leaf) (x : pyval) : res pyval :=
   match lvalidate_kind f x with
   | Ok v => match x, l_reject f with
             | PNone, _ => Ok v
@@ -112,6 +112,12 @@ Definition lvalidate (f : leaf) (x : pyval) : res pyval :=
             end
   | o => o
   end.
+(* a Config object handed to a leaf field (Config.cfg_object): IntField "value type Config cannot be converted to int",
+   StringField "value must be a string, not a Config", BoolField / FeatureFlagField "value is not a valid boolean" -- all
+   ValueError raised by _validate, before any custom validator; AnyField keeps the object (outside the value model) *)
+Definition lvalidate (f : leaf) (x : pyval) : res pyval :=
+  if pyval_eqb x cfg_object then match l_kind f with LAny => Unmodelled | _ => Err EValue end
+  else lvalidate_data f x.
 
 Definition lto_python (f : leaf) (x : pyval) : res pyval := Ok x.
 Definition lto_basic (f : leaf) (x : pyval) : res pyval := Ok x.
@@ -181,22 +187,33 @@ Definition same_ids (before after : list (str * N)) : pyval :=
                                        PBool (match assoc str_eqb (fst pi) before with
                                               | Some j => N.eqb j (snd pi) | None => false end))) after)).
 
+(* a constructor keyword: plain data, or a configuration object built on the side (schema, operations applied to it) *)
+Inductive kwv :=
+| KV (x : pyval)
+| KObj (sdyn : bool) (svs : list N) (sfs : list (str * inode)) (dops : list (list pstep * cop)).
+
 Section Run.
   Variable vt : vtable.
-  Let build_val := build_val leaf ldefault l_callable.
-  Let at_path := at_path leaf lvalidate lto_python ldefault l_callable lflag (vrun vt).
+  Let build_val := build_val leaf lvalidate lto_python ldefault l_callable lflag (vrun vt).
+  Let at_path := at_path_x leaf lvalidate lto_python ldefault l_callable lflag (vrun vt).
 
   (* Config(schema, **kw): keywords through _set_value on the still empty configuration, then defaults *)
-  Fixpoint ctor_kw (kw : list (str * pyval)) (w : world) (c : cfg) (dynamic : bool) (fs : list (str * inode)) : world * cfg * oc :=
+  Fixpoint ctor_kw (kw : list (str * kwv)) (w : world) (c : cfg) (dynamic : bool) (vs : list N) (fs : list (str * inode))
+    : world * cfg * oc :=
     match kw with
     | [] => (w, c, OOk)
-    | (k, x) :: r =>
+    | (k, KV x) :: r =>
         match Config.set_value leaf lvalidate lto_python ldefault l_callable lflag (vrun vt) x w [] c fs dynamic k false with
-        | (w1, c1, OOk) => ctor_kw r w1 c1 dynamic fs
+        | (w1, c1, OOk) => ctor_kw r w1 c1 dynamic vs fs
+        | other => other
+        end
+    | (k, KObj sdyn svs sfs dops) :: r =>
+        match at_path [] w [] c dynamic vs fs (XObj RSet k sdyn svs sfs dops) with
+        | (w1, c1, OOk) => ctor_kw r w1 c1 dynamic vs fs
         | other => other
         end
     end.
-  Fixpoint ctor_defaults (fs : list (str * inode)) (kw : list (str * pyval)) (w : world) (c : cfg) : world * cfg :=
+  Fixpoint ctor_defaults (fs : list (str * inode)) (kw : list (str * kwv)) (w : world) (c : cfg) : world * cfg :=
     match fs with
     | [] => (w, c)
     | (k, nd) :: r =>
@@ -204,9 +221,9 @@ Section Run.
         else let '(w1, v) := build_val w nd in
              match c with Cfg i d df dy => ctor_defaults r kw w1 (Cfg i (d ++ [(k, v)]) (df ++ [k]) dy) end
     end.
-  Definition ctor (w : world) (dynamic : bool) (fs : list (str * inode)) (kw : list (str * pyval)) : world * cfg * oc :=
+  Definition ctor (w : world) (dynamic : bool) (vs : list N) (fs : list (str * inode)) (kw : list (str * kwv)) : world * cfg * oc :=
     let c0 := Cfg (w_next w) [] [] [] in
-    match ctor_kw kw {| w_next := w_next w + 1; w_calls := w_calls w |} c0 dynamic fs with
+    match ctor_kw kw {| w_next := w_next w + 1; w_calls := w_calls w |} c0 dynamic vs fs with
     | (w1, c1, OOk) => let '(w2, c2) := ctor_defaults fs kw w1 c1 in (w2, c2, OOk)
     | other => other
     end.
@@ -214,23 +231,24 @@ Section Run.
   Definition step_obs (root root' : cfg) (o : oc) : pyval :=
     PTuple [o_oc o; o_cfg' root'; same_ids (ids_cfg [] root) (ids_cfg [] root')].
 
-  Fixpoint run_ops (ops : list (list pstep * cop)) (w : world) (root : cfg) (dynamic : bool) (vs : list N) (fs : list (str * inode))
-    : list pyval :=
+  Fixpoint run_ops (ops : list (list pstep * xop leaf)) (w : world) (last : kept leaf) (root : cfg) (dynamic : bool) (vs : list N)
+           (fs : list (str * inode)) : list pyval :=
     match ops with
     | [] => []
     | (ps, o) :: r =>
-        let '(w1, root', oc1) := at_path ps w [] root dynamic vs fs o in
-        step_obs root root' oc1 :: run_ops r w1 root' dynamic vs fs
+        let '(w1, last1, root', oc1) :=
+          at_path_xs leaf lvalidate lto_python ldefault l_callable lflag (vrun vt) ps w last [] root dynamic vs fs o in
+        step_obs root root' oc1 :: run_ops r w1 last1 root' dynamic vs fs
     end.
 End Run.
 
 (* stream `configops`: (validator table, root dynamic?, root validators, schema, constructor keywords, history) *)
-Definition cocase := (vtable * bool * list N * list (str * inode) * list (str * pyval) * list (list pstep * cop))%type.
+Definition cocase := (vtable * bool * list N * list (str * inode) * list (str * kwv) * list (list pstep * xop leaf))%type.
 Definition w0 : world := {| w_next := 0; w_calls := 0 |}.
 Definition run_configops (c : cocase) : pyval :=
   let '(vt, dynamic, vs, fs, kw, ops) := c in
-  match ctor vt w0 dynamic fs kw with
-  | (w1, root, OOk) => PTuple [o_str "ok"; o_cfg' root; PList 0 (run_ops vt ops w1 root dynamic vs fs)]
+  match ctor vt w0 dynamic vs fs kw with
+  | (w1, root, OOk) => PTuple [o_str "ok"; o_cfg' root; PList 0 (run_ops vt ops w1 None root dynamic vs fs)]
   | (_, _, o) => PTuple [o_oc o]
   end.
 
@@ -238,15 +256,16 @@ Definition run_configops (c : cocase) : pyval :=
 Definition o_rpy (r : res pyval) : pyval := o_res r.
 Definition run_totree (c : cocase * option str) : pyval :=
   let '((vt, dynamic, vs, fs, kw, ops), mask) := c in
-  match ctor vt w0 dynamic fs kw with
+  match ctor vt w0 dynamic vs fs kw with
   | (w1, root, OOk) =>
-      let final := (fix go (ops : list (list pstep * cop)) (w : world) (root : cfg) : cfg :=
+      let final := (fix go (ops : list (list pstep * xop leaf)) (w : world) (last : kept leaf) (root : cfg) : cfg :=
                       match ops with
                       | [] => root
                       | (ps, o) :: r =>
-                          let '(w', root', _) := at_path leaf lvalidate lto_python ldefault l_callable lflag (vrun vt) ps w [] root dynamic vs fs o in
-                          go r w' root'
-                      end) ops w1 root in
+                          let '(w', last', root', _) :=
+                            at_path_xs leaf lvalidate lto_python ldefault l_callable lflag (vrun vt) ps w last [] root dynamic vs fs o in
+                          go r w' last' root'
+                      end) ops w1 None root in
       PTuple [o_rpy (to_tree leaf lto_basic l_sensitive py_strlen None fs final);
               o_rpy (to_tree leaf lto_basic l_sensitive py_strlen mask fs final)]
   | (_, _, o) => PTuple [o_oc o]
